@@ -829,7 +829,7 @@ func jpfToNumber(arguments []interface{}) (interface{}, error) {
 	}
 	if v, ok := arg.(string); ok {
 		conv, err := strconv.ParseFloat(v, 64)
-		if err != nil {
+		if err != nil || math.IsNaN(conv) || math.IsInf(conv, 0) {
 			return nil, nil
 		}
 		return conv, nil
